@@ -516,17 +516,32 @@ pub fn verif_root() -> std::path::PathBuf {
 /// Shrinks the first violation of the batch, replays it in this process on a fresh thread,
 /// writes the replay file and prints the VIOLATION line. Returns number of violations reported.
 pub fn report_violations<S: Scenario>(s: &S, cfg: &BatchCfg, res: &BatchResult) -> usize {
-	let Some((run, v, plan)) = res.violations.first() else {
+	if res.violations.is_empty() {
 		return 0;
-	};
-	let plan: S::Plan = serde_json::from_value(plan.clone()).expect("plan roundtrip");
-	let (min_plan, min_v, tried) = shrink(s, plan, v, cfg.strict_teardown);
-	// must reproduce
-	let again = run_one(s, &min_plan, true, cfg.strict_teardown);
-	let reproduced = again
-		.violation
-		.as_ref()
-		.is_some_and(|a| a.oracle == min_v.oracle && a.signature == min_v.signature);
+	}
+	// The lowest-index violation is reported, unless it does not reproduce after shrinking (code that
+	// depends on memory addresses is not made deterministic by any seed): then the next few are tried and
+	// the first one that replays exactly is reported instead.
+	let mut chosen = None;
+	for (run, v, plan) in res.violations.iter().take(6) {
+		let plan: S::Plan = serde_json::from_value(plan.clone()).expect("plan roundtrip");
+		let (min_plan, min_v, tried) = shrink(s, plan, v, cfg.strict_teardown);
+		// must reproduce
+		let again = run_one(s, &min_plan, true, cfg.strict_teardown);
+		let reproduced = again
+			.violation
+			.as_ref()
+			.is_some_and(|a| a.oracle == min_v.oracle && a.signature == min_v.signature);
+		let cand = (run, min_plan, min_v, tried, again, reproduced);
+		if reproduced {
+			chosen = Some(cand);
+			break;
+		}
+		if chosen.is_none() {
+			chosen = Some(cand);
+		}
+	}
+	let (run, min_plan, min_v, tried, again, reproduced) = chosen.expect("at least one violation");
 	let dir = verif_root().join("replays");
 	let _ = std::fs::create_dir_all(&dir);
 	let path = dir.join(format!("{}-{}-{}-{}.json", s.property(), s.name(), cfg.seed, run));
